@@ -147,6 +147,7 @@ def run(check, an: Analysis):
                    'removed from the waiter list: %s' % forms)
     # ---- suppress -------------------------------------------------------------
     _scope.check_suppression(check, an, 'suppress')
+    _scope.check_foreign_signal_leaves_exit(check, an, 'suppress')
     # an interrupted block closes every child, not every second one
     from . import c04
     c04.check_copy_iteration(check, an, 'P')
